@@ -32,6 +32,7 @@ type c11RefBudgetHit struct{}
 type c11Ref struct {
 	pre, suf, sep string
 	tbl           map[string]string
+	fn            string // "" = the table alone; otherwise the total lookup function c11FnValue(tbl, fn, ·)
 	steps, budget int
 }
 
@@ -79,6 +80,9 @@ func (r *c11Ref) parse(s string) []c11Tmpl {
 }
 
 func (r *c11Ref) lookup(k string) (string, bool) {
+	if r.fn != "" {
+		return c11FnValue(r.tbl, r.fn, k)
+	}
 	v, ok := r.tbl[k]
 	return v, ok
 }
@@ -120,7 +124,12 @@ func (r *c11Ref) eval(s string, stack []string) string {
 
 // c11RefResolve runs the reference: outcome "ok" (S), "cycle" (O) or "budget".
 func c11RefResolve(d [3]string, tbl map[string]string, s string, budget int) (out c11Out) {
-	r := &c11Ref{pre: d[0], suf: d[1], sep: d[2], tbl: tbl, budget: budget}
+	return c11RefResolveFn(d, tbl, "", s, budget)
+}
+
+// c11RefResolveFn: the same against a lookup function (see c11FnValue).
+func c11RefResolveFn(d [3]string, tbl map[string]string, fn string, s string, budget int) (out c11Out) {
+	r := &c11Ref{pre: d[0], suf: d[1], sep: d[2], tbl: tbl, fn: fn, budget: budget}
 	defer func() {
 		if x := recover(); x != nil {
 			switch e := x.(type) {
